@@ -238,6 +238,14 @@ func pnftAuthRules(p *Prog, r *Report, clause string) {
 			ids := lk.Args[2:] // receiver, ctx, ids...
 			okRes, why := sameResource(e, lk, ids)
 			r.Check(okRes, kp("ORIGIN", ek+"#same-resource"), "the resource mutated is the one whose current owner was read (same ids / derived from the same read)", site, why, why)
+			if e.Kind == "raw:Delete" && okRes {
+				// … and the key builder really yields x/nft's key of that id: prefix ++ id, whole, in a buffer of exactly that size
+				if kb := staticCalleeOfTerm(p, e.Key); kb != nil {
+					okKB, whyKB := rawClassKeyBuilderShape(kb)
+					r.Check(okKB, kp("LIN", FuncName(kb)+"#key=prefix++id"), "the hand-built x/nft class key is the class prefix followed by the whole id, in a buffer sized len(prefix)+len(id)", p.FnPos(kb), whyKB,
+						FuncName(kb)+": "+whyKB+" — a fixed-size or otherwise bounded buffer truncates long ids, so the delete hits the denom named by the truncated prefix (another owner's denom, tokens and all) instead of the one that was checked")
+				}
+			}
 			// fields of the looked-up resource overwritten before it is written back: never the id; the owner only alone (hand-over)
 			if e.Kind == "nft:UpdateClass" {
 				var stored []string
@@ -519,4 +527,89 @@ func nftMutatorTableCheck(p *Prog, r *Report, kp func(string, string) string) {
 	r.Check(len(missing) == 0 && found >= 6, kp("WMC", "nft-keeper#mutator-table-complete"),
 		"every exported x/nft keeper method that can reach a store write is in the checker's mutator table", nftKeeperPath,
 		fmt.Sprintf("%d writing methods, all tabled", found), fmt.Sprintf("writing methods not in the table: %v (found %d)", missing, found))
+}
+
+// rawClassKeyBuilderShape: fn(id string) []byte returns make([]byte, len(P)+len(id)) filled by copy(key, P) and
+// copy(key[len(P):], id), with P a package-level byte slice (x/nft's ClassKey) — or append(P-copy, id...).
+func rawClassKeyBuilderShape(fn *ssa.Function) (bool, string) {
+	if fn == nil || fn.Blocks == nil || len(fn.Params) != 1 {
+		return false, "unexpected signature"
+	}
+	id := fn.Params[0]
+	rets := returnsOf(fn)
+	if len(rets) != 1 || len(rets[0].Results) != 1 {
+		return false, "more than one return"
+	}
+	v := rets[0].Results[0]
+	// append form: append(<copy of the prefix variable>, id...) — a fresh slice that grows as needed
+	if progForFacts != nil {
+		t := NewOrigin(progForFacts, fn).Of(v)
+		if t.IsCall("builtin:append") && len(t.Args) == 2 && t.Args[0].Op == "gval" {
+			a := t.Args[1]
+			if a.Op == "conv" && len(a.Args) == 1 {
+				a = a.Args[0]
+			}
+			if a.Op == "param" {
+				if c, isCall := v.(*ssa.Call); isCall {
+					// the destination must be a copy of the prefix variable, not the variable itself (append may write into spare capacity)
+					if inner, isInner := c.Call.Args[0].(*ssa.Call); isInner {
+						if bi, isB := inner.Call.Value.(*ssa.Builtin); isB && bi.Name() == "append" {
+							return true, "append(append(<empty>, prefix...), id...)"
+						}
+					}
+				}
+			}
+		}
+	}
+	ms, ok := v.(*ssa.MakeSlice)
+	if !ok {
+		return false, fmt.Sprintf("the key returned is %s, not a buffer made for this id (make([]byte, len(prefix)+len(id)))", strings.SplitN(v.String(), "\n", 2)[0])
+	}
+	d := LinOf(ms.Len)
+	want := "len(" + id.Name() + ")"
+	if d.C != 0 || len(d.Coef) != 2 || d.Coef[want] != 1 {
+		return false, "buffer length is " + d.String() + ", expected len(prefix)+len(id)"
+	}
+	var copies []*ssa.Call
+	for _, b := range fn.Blocks {
+		for _, in := range b.Instrs {
+			if c, ok := in.(*ssa.Call); ok {
+				if bi, isB := c.Call.Value.(*ssa.Builtin); isB && bi.Name() == "copy" {
+					copies = append(copies, c)
+				}
+			}
+		}
+	}
+	prefixCopied, idCopied := false, false
+	for _, c := range copies {
+		dst, src := c.Call.Args[0], c.Call.Args[1]
+		isGlobalLoad := func(x ssa.Value) bool {
+			u, ok := x.(*ssa.UnOp)
+			if !ok {
+				return false
+			}
+			_, isG := u.X.(*ssa.Global)
+			return isG
+		}
+		switch {
+		case dst == ssa.Value(ms) && isGlobalLoad(src):
+			prefixCopied = true
+		case src == ssa.Value(id) || isConvOf(src, id):
+			if sl, ok := dst.(*ssa.Slice); ok && sl.X == ssa.Value(ms) && sl.Low != nil && sl.High == nil {
+				lo := LinOf(sl.Low)
+				if lo.C == 0 && len(lo.Coef) == 1 {
+					idCopied = true
+				}
+			}
+		}
+	}
+	if !prefixCopied || !idCopied {
+		return false, fmt.Sprintf("prefix copied to the start=%v, whole id copied right behind it=%v", prefixCopied, idCopied)
+	}
+	return true, "make([]byte, len(prefix)+len(id)); copy(key, prefix); copy(key[len(prefix):], id)"
+}
+
+func isConvOf(v ssa.Value, x ssa.Value) bool {
+	c, ok := v.(*ssa.Convert)
+	return ok && c.X == x
 }
